@@ -1,8 +1,9 @@
-\* exhaustive: all histories of <= 5 calls on 4 statement objects x 3 parameter values, execute / execute(text) / executemany
+\* exhaustive (quick): all histories of <= 5 calls on 3 statement objects x 3 parameter values,
+\* parse / execute(object) / execute(text) / executemany (two pairs)
 CONSTANTS
-  Stmts <- Stmts4
-  StmtParams <- Params4
-  ManyPairs <- Pairs9
+  Stmts <- Stmts3
+  StmtParams <- Params3
+  ManyPairs <- Pairs2
   Data <- DataA
   NumberMode = "conforming"
   MaxCalls = 5
